@@ -9,7 +9,7 @@ import vlib
 KEY_OVERLAP = "overlapping-activations"
 KEY_APPEND = "failed-index-append-leaves-mapping"
 STATES = ["valid", "revoked", "activated", "absent"]
-KINDS = {"act": 0, "rev": 1, "tick": 2}
+KINDS = {"act": 0, "rev": 1, "tick": 2, "list": 3}
 
 
 def act(listen, laddr=0, fault=-1, nocode=False):
@@ -20,14 +20,15 @@ def rev(fault=-1):
     return {"kind": "rev", "listen": 0, "laddr": 0, "fault": fault, "nocode": False}
 
 
+LIST = {"kind": "list", "listen": 0, "laddr": 0, "fault": -1, "nocode": False}   # the code's owner lists its codes
 TICK = {"kind": "tick", "listen": 0, "laddr": 0, "fault": -1, "nocode": False}
 
 
-def case(threads, sched, state="valid", qmax=50, pre=(), target=77, taddr=0, stream="structured", world=""):
+def case(threads, sched, state="valid", qmax=50, pre=(), target=77, taddr=0, stream="structured", world="", ttl_ms=0):
     """world "" = all callers over one memory store; "cluster" = every caller on its own node (hybrid storage with a
     private local cache, ONE shared cache, stock hybrid.DefaultConfig routing), results observed from a further node"""
     return {"qmax": qmax, "pre": [list(p) for p in pre], "state": state, "target": target, "taddr": taddr,
-            "threads": threads, "sched": list(sched), "stream": stream, "world": world}
+            "threads": threads, "sched": list(sched), "stream": stream, "world": world, "ttl_ms": ttl_ms}
 
 
 def on_cluster(c):
@@ -41,6 +42,40 @@ def on_shared(c):
     d = dict(c)
     d["world"] = "shared"
     return d
+
+
+def last_second(c):
+    """the same case on a code whose whole activation period is 900 ms: every Update runs with 0 < remaining < 1 s"""
+    d = dict(c)
+    d["ttl_ms"] = 900
+    return d
+
+
+def listing_cases(rng, n_act, n_rev, thorough):
+    """read paths with side effects as callers: the owner lists its codes (lazy clean-up, asynchronous purge).
+    Activator parked before its claim (after 1, 2 or 3 actions) while the owner revokes and then lists; every
+    interleaving of activator x revoker x listing prefixes; listings around the expiry tick."""
+    out = []
+    for p in range(0, n_act + 1):                       # activator parked after p actions; revoke; list; go on
+        for w in ("", "cluster"):
+            out.append(case([act(101, 0), rev(), dict(LIST)], [0] * p + [1] * 5 + [2] * 8 + [0] * 14, world=w))
+            out.append(case([act(101, 0), dict(LIST), rev()], [0] * p + [1] * 3 + [2] * 5 + [1] * 8 + [0] * 14, world=w))
+    for p in range(0, 5):                               # two activators, the second parked too
+        out.append(case([act(101, 0), act(102, 1), rev(), dict(LIST)], [0] * p + [1] * 3 + [2] * 5 + [3] * 8 + [1] * 14 + [0] * 14))
+    n3 = 400 if not thorough else 0
+    pre = merges3(4, 4, 3)                              # activator up to its claim x full revoke x listing call + start of purge
+    if not thorough:
+        pre = [rand_merge(rng, [4, 4, 3]) for _ in range(n3)]
+    for s in pre:
+        out.append(case([act(101, 0), rev(), dict(LIST)], list(s) + [2] * 6))
+    for _ in range(6000 if thorough else 150):          # complete runs at random, with faults
+        out.append(case([act(101, 0, fault=rng.choice([-1, -1, -1] + list(range(10)))), rng.choice([rev(), act(102, 1)]), dict(LIST)],
+                        rand_merge(rng, [n_act + 3, n_rev + 6, 8]), state=rng.choice(["valid"] * 6 + ["revoked", "activated", "absent"])))
+    for j in range(40 if thorough else 8):              # listing after the activation period has ended (lazy index clean-up / purge)
+        ths = [act(101, 0), rng.choice([rev(), act(102, 1)]), dict(LIST), dict(TICK)]
+        p, q = rng.randrange(0, n_act + 1), rng.randrange(0, 5)
+        out.append(case(ths, [0] * p + [1] * q + [3] + rand_merge(rng, [n_act + 4 - p, 8, 8, 0])))
+    return out
 
 
 def parked_cases(world):
@@ -189,9 +224,10 @@ def exhaustive(rng, claim, admit, thorough):
     n_core = 9 if claim else 8
     n_act = n_core + (2 if admit else 0)
     out = []
-    ms = list(merges(n_core, n_core))
-    if not thorough:
-        ms = rng.sample(ms, 250)
+    if thorough:
+        ms = list(merges(n_core, n_core))
+    else:
+        ms = [rand_merge(rng, [n_core, n_core]) for _ in range(250)]
     for s in ms:
         out.append(case([act(101, 0), act(102, 1)], expand_admission(s, n_core) if admit else s))
     same = ms if thorough else ms[:60]
@@ -275,7 +311,7 @@ def case_value(c, o):
             c["target"], c["taddr"], ths, list(o["sched"]), obs,
             [[r[0], r[1], r[2], r[3] + 1, r[4] + 1] for r in o["mains"]], list(o["glob"]), [list(e) for e in o["cidx"]],
             rec(o["bycode"]), rec(o["byid"]), bool(o["claimset"]), bool(o["ticked"]), bool(o.get("variant_admit")),
-            int(o.get("admitkeys", 0))]
+            int(o.get("admitkeys", 0)), bool(o.get("tidx"))]
 
 
 def overlapping(o):
@@ -308,11 +344,11 @@ def run(ctx, only_cases=None):
         cases += [dict(w) for w in WITNESSES]
         cases += gen_structured(ctx.rng, 6000 if thorough else 260)
         cases += gen_malformed(ctx.rng, 600 if thorough else 40)
-        cases += exhaustive(ctx.rng, claim, admit, thorough)
+        ex = exhaustive(ctx.rng, claim, admit, thorough)
+        cases += ex
         cases += tick_cases(ctx.rng, 120 if thorough else 20, claim, admit)
         cases += gen_structured(ctx.rng, 80 if thorough else 8, tick_share=1.0)
         # the same schedules across nodes: every caller on its own hybrid-storage node over one shared cache
-        ex = exhaustive(ctx.rng, claim, admit, thorough)
         pool = [c for c in cases if c.get("world", "") == "" and not any(t["kind"] == "tick" for t in c["threads"])]
         cases += [on_cluster(c) for c in (ex if thorough else ctx.rng.sample(ex, min(len(ex), 500)))]
         cases += [on_cluster(c) for c in ctx.rng.sample(pool, min(len(pool), 3000 if thorough else 300))]
@@ -320,6 +356,12 @@ def run(ctx, only_cases=None):
         cases += parked_cases("shared") + parked_cases("cluster")
         cases += [on_shared(c) for c in ctx.rng.sample(ex, min(len(ex), 40000 if thorough else 300))]
         cases += [on_shared(c) for c in ctx.rng.sample(pool, min(len(pool), 3000 if thorough else 200))]
+        # read paths with side effects as callers (never in shared worlds: the clean-up goroutine cannot be told apart there)
+        n_act = (9 if claim else 8) + (2 if admit else 0)
+        cases += listing_cases(ctx.rng, n_act, 4 if claim else 3, thorough)
+        # last-second cells: the same overlapping schedules on a code that lives 900 ms
+        cases += [last_second(c) for c in parked_cases("") + parked_cases("cluster")]
+        cases += [last_second(c) for c in ctx.rng.sample(ex, min(len(ex), 20000 if thorough else 200))]
     outs = run_parallel(binary, cases, par=8)
     # ---- the property predicate evaluated by the harness on the real code's outputs
     nviol = {}
@@ -350,7 +392,7 @@ def run(ctx, only_cases=None):
                 unmodelled += 1          # the model reached the one branch it does not describe (deletion of a re-written expired record)
                 continue
             mism.append(k)
-        small = [k for k in range(len(terms)) if len(outs[idx[k]]["sched"]) <= 24][:30]
+        small = [k for k in range(len(terms)) if len(outs[idx[k]]["sched"]) <= 24][:20]
         vm_bad = sorted(small[j] for j in vlib.vm_crosscheck("C06", [terms[k] for k in small]))
         if vm_bad != sorted(k for k in small if not res[k]):
             raise vlib.Broken("extracted runner and vm_compute disagree on the C06 model", str(vm_bad))
@@ -367,12 +409,14 @@ def run(ctx, only_cases=None):
     nontriv = set()
     stats = {"activators": 0, "revokers": 0, "ticks": 0, "faults_hit": 0, "successes": 0, "overlapping_runs": 0,
              "initial_state": {s: 0 for s in STATES}, "structured": 0, "malformed": 0, "ambiguous_timing_skipped": 0,
-             "cluster_world_runs": 0, "shared_service_instance_runs": 0, "entries_skipped_caller_blocked_outside_store": 0,
+             "listing_callers": 0, "last_second_cells": 0, "cluster_world_runs": 0, "shared_service_instance_runs": 0, "entries_skipped_caller_blocked_outside_store": 0,
              "model_unmodelled_branch_skipped": unmodelled}
     for c, o in zip(cases, outs):
         stats["activators"] += sum(t["kind"] == "act" for t in c["threads"])
         stats["revokers"] += sum(t["kind"] == "rev" for t in c["threads"])
         stats["ticks"] += 1 if o["ticked"] else 0
+        stats["listing_callers"] += sum(t["kind"] == "list" for t in c["threads"])
+        stats["last_second_cells"] += 1 if c.get("ttl_ms") else 0
         stats["cluster_world_runs"] += 1 if c.get("world") == "cluster" else 0
         stats["shared_service_instance_runs"] += 1 if c.get("world") == "shared" else 0
         stats["entries_skipped_caller_blocked_outside_store"] += int(o.get("skipped", 0))
